@@ -3,6 +3,7 @@ pub mod ds {
     use vstd::prelude::*;
     use crate::graph::*;
     use crate::db::*;
+    use crate::gs;
     use crate::vx_keys::{vx_ix, ix};
     verus! {
     broadcast use crate::vx_keys::group_keys;
@@ -51,7 +52,7 @@ pub mod ds {
     pub open spec fn enc_build(outs: Seq<Id>, deps: Seq<Id>, hash: u64) -> Seq<u8> {
         enc_u16((outs.len() as u16) | 0x8000) + enc_ids(outs) + enc_u16(deps.len() as u16) + enc_ids(deps) + enc_u64(hash)
     }
-    pub open spec fn signature() -> Seq<u8> { seq![0x6eu8, 0x32u8, 0x64u8, 0x62u8] + enc_u32(1) }
+    pub open spec fn signature() -> Seq<u8> { crate::vx_utf8("n2db"@) + enc_u32(1) }
 
     // --- IdMap
     pub open spec fn fileids(m: IdMap) -> Seq<FileId> { m.fileids.vec@ }
@@ -59,6 +60,63 @@ pub mod ds {
     pub open spec fn idmap_inv(m: IdMap) -> bool {
         &&& fileids(m).len() <= 0x100_0000
         &&& forall|f: FileId| #[trigger] m.db_ids@.contains_key(f) ==> (m.db_ids@[f].0 as int) < fileids(m).len() && fileids(m)[m.db_ids@[f].0 as int] == f
+    }
+
+    pub open spec fn name_bytes(g: Graph, f: FileId) -> Seq<u8> { crate::vx_utf8(gs::files(g)[ix(f)].name@) }
+    /// the path records for db ids from..to, in id order
+    pub open spec fn paths_enc(g: Graph, fids: Seq<FileId>, from: int, to: int) -> Seq<u8>
+        decreases to - from
+    {
+        if to <= from { Seq::empty() } else { paths_enc(g, fids, from, to - 1) + enc_path(name_bytes(g, fids[to - 1])) }
+    }
+    pub open spec fn names_short(g: Graph) -> bool {
+        forall|f: int| 0 <= f < gs::files(g).len() ==> crate::vx_utf8((#[trigger] gs::files(g)[f]).name@).len() < 0x8000
+    }
+    pub open spec fn ids_map(m: IdMap, ids: Seq<Id>, fs: Seq<FileId>) -> bool {
+        ids.len() == fs.len() && forall|j: int| 0 <= j < ids.len() ==> (#[trigger] ids[j]).0 < fileids(m).len() && fileids(m)[ids[j].0 as int] == fs[j]
+            && m.db_ids@.contains_key(fs[j]) && m.db_ids@[fs[j]] == ids[j]
+    }
+    /// the db ids the writer assigns to a list of files
+    pub open spec fn ids_of(m: IdMap, fs: Seq<FileId>) -> Seq<Id> { Seq::new(fs.len(), |j: int| m.db_ids@[fs[j]]) }
+    pub open spec fn map_ext(a: IdMap, b: IdMap) -> bool {
+        forall|f: FileId| #[trigger] a.db_ids@.contains_key(f) ==> b.db_ids@.contains_key(f) && b.db_ids@[f] == a.db_ids@[f]
+    }
+    pub open spec fn extends(a: Seq<FileId>, b: Seq<FileId>) -> bool { a.len() <= b.len() && b.subrange(0, a.len() as int) =~= a }
+    pub proof fn lemma_paths_ext(g: Graph, a: Seq<FileId>, b: Seq<FileId>, from: int, to: int)
+        requires extends(a, b), 0 <= from, to <= a.len()
+        ensures paths_enc(g, a, from, to) == paths_enc(g, b, from, to)
+        decreases to - from
+    {
+        if to > from {
+            lemma_paths_ext(g, a, b, from, to - 1);
+            assert(b.subrange(0, a.len() as int)[to - 1] == a[to - 1]);
+        }
+    }
+    pub proof fn lemma_ids_map_ext(m0: IdMap, m1: IdMap, ids: Seq<Id>, fs: Seq<FileId>)
+        requires ids_map(m0, ids, fs), extends(fileids(m0), fileids(m1)), map_ext(m0, m1)
+        ensures ids_map(m1, ids, fs)
+    {
+        assert forall|j: int| 0 <= j < ids.len() implies (#[trigger] ids[j]).0 < fileids(m1).len() && fileids(m1)[ids[j].0 as int] == fs[j]
+            && m1.db_ids@.contains_key(fs[j]) && m1.db_ids@[fs[j]] == ids[j] by {
+            assert(fileids(m1).subrange(0, fileids(m0).len() as int)[ids[j].0 as int] == fileids(m0)[ids[j].0 as int]);
+        }
+    }
+
+    pub proof fn lemma_paths_split(g: Graph, fids: Seq<FileId>, a: int, b: int, c: int)
+        requires a <= b <= c
+        ensures paths_enc(g, fids, a, c) == paths_enc(g, fids, a, b) + paths_enc(g, fids, b, c)
+        decreases c - b
+    {
+        if c > b {
+            lemma_paths_split(g, fids, a, b, c - 1);
+            assert(paths_enc(g, fids, a, c) == paths_enc(g, fids, a, c - 1) + enc_path(name_bytes(g, fids[c - 1])));
+            assert(paths_enc(g, fids, b, c) == paths_enc(g, fids, b, c - 1) + enc_path(name_bytes(g, fids[c - 1])));
+            assert(paths_enc(g, fids, a, b) + (paths_enc(g, fids, b, c - 1) + enc_path(name_bytes(g, fids[c - 1])))
+                =~= (paths_enc(g, fids, a, b) + paths_enc(g, fids, b, c - 1)) + enc_path(name_bytes(g, fids[c - 1])));
+        } else {
+            assert(paths_enc(g, fids, b, c) =~= Seq::<u8>::empty());
+            assert(paths_enc(g, fids, a, b) + Seq::<u8>::empty() =~= paths_enc(g, fids, a, b));
+        }
     }
     }
 }
